@@ -1,18 +1,25 @@
 """C07 - compressed output is a pure function of input, parameters, dictionary and calls  (PARTIAL).
 
-proof      : coq/Props/Properties_C07.v  (models in coq/Det/*.v):
-             reset_makes_history_unreachable, cwksp_tables_clean, hash_salt_harmless, opt_stats_reseeded,
-             mt_output_schedule_independent, cstream_out_capacity_independent (+ the refutation witness of the
-             e_end shortcut, see Findings in docs/C07.md)
+proof      : coq/Props/Properties_C07.v  (models in coq/Det/*.v), 21 theorems:
+             reset_makes_history_unreachable, reset_mode_restarts_indices, frame_after_reset_history_independent,
+             frame_after_reset_two_histories, cwksp_invariant_all_sequences, cwksp_tables_clean,
+             cwksp_tables_zero_after_index_reset, cwksp_reset_watermark_formula, hash_salt_relabels_rows, hash_salt_harmless,
+             opt_stats_reseeded, mt_partition_schedule_independent, mt_flush_in_order, mt_output_schedule_independent,
+             stream_partition_is_spec, stream_partition_capacity_independent, stream_continue_{pieces,flush,end}_merge,
+             block_state_reset_forgets, ldm_reset_forgets (+ machine-checked witnesses of the two findings:
+             StreamPartitionProofs.shortcut_depends_on_capacity, MtProofs.mt_last_flag_schedule_dependent)
 tie (1)    : harness/c07_det.c : PAIRED EXECUTIONS of the real library, byte compare (size + XXH64 of every frame):
              fresh context vs context after a history (other frames / parameters / dictionaries, aborted frames +
-             every reset kind, 130-frame bursts), heap (garbage filled) vs zeroed heap vs static memory, src/dst at
-             offsets 0..63 of a page and contiguous to the previous input, other output capacities / input buffer
-             reuse in streaming, nbWorkers in {1,2,4} x lock jitter x refused job posts.  Every frame is decoded by
-             libzstd, a sample by the Coq reference decoder R.
-tie (2)    : lock-step of the extracted reset / cwksp / salt / MT-partition models (ml/c07_driver.ml) against the
-             real structs (read through #include of zstd_compress.c / zstdmt_compress.c) after API calls, and two
-             direct memory observers on the real tables (invariant I and the conclusion of the reset theorem).
+             every reset kind, 130-frame bursts, buffers of another frame written over the area of the tables), heap
+             (garbage filled) vs zeroed heap vs static memory, src/dst at offsets 0..63 of a page and contiguous to the
+             previous input, other output capacities / input buffer reuse / other cuts of the ZSTD_e_continue input in
+             streaming, parameters set one by one vs through ZSTD_CCtx_params, dictionary content by copy vs by reference,
+             nbWorkers in {1,2,4} x lock jitter x refused job posts.  Every frame is decoded by libzstd, a sample by the
+             Coq reference decoder R.
+tie (2)    : lock-step of the extracted reset / cwksp / salt / block-state / LDM-reset / streaming-partition /
+             MT-partition models (ml/c07_driver.ml) against the real structs (read through #include of zstd_compress.c /
+             zstdmt_compress.c) after API calls, and two direct memory observers on the real tables (invariant I and the
+             conclusion of the reset theorem).
 tie (3)    : harness/c07_opt.c : the real ZSTD_rescaleFreqs on garbage prior statistics vs the model.
 Everything below the proof is differential testing: it validates the model and the unmodelled finders
 (the "never use an index < lowLimit" contract is covered ONLY by tie (1)); it never replaces a theorem.
@@ -179,6 +186,34 @@ def gen_pieces(rng, n, blocky=False):
     return pcs
 
 
+def reseg_pieces(rng, pieces):
+    """another segmentation with the same flush / end calls: every maximal run of ZSTD_e_continue pieces is cut again
+    (same total); the flush / end pieces keep their own sizes (Det/StreamPartitionProofs.continue_*_merge: the
+    chunks handed to the block compressor are the same; the exception - an end call without input after an exact
+    multiple of the block size - cannot arise because the size of the end call is kept)"""
+    out, run = [], []
+
+    def close():
+        if not run:
+            return
+        total = sum(run)
+        k = rng.choice([1, 2, 3, 5])
+        cuts = sorted(rng.randint(0, total) for _ in range(k - 1))
+        prev = 0
+        for cpos in cuts + [total]:
+            out.append((cpos - prev, 0))
+            prev = cpos
+        del run[:]
+    for n, d in pieces:
+        if d == 0:
+            run.append(n)
+        else:
+            close()
+            out.append((n, d))
+    close()
+    return out
+
+
 class Target:
     """api in c2 | stream | cctx | udict | ucdict | adv | bl | blcdict"""
 
@@ -220,18 +255,21 @@ class Target:
         return st
 
     # ---- script lines
-    def cdict_lines(self, d):
-        """lines creating the CDict this target needs in slot d"""
+    def cdict_lines(self, d, flip=False):
+        """lines creating the CDict this target needs in slot d (flip: dictionary content by copy <-> by reference)"""
         if not self.cdict:
             return []
         c = self.cdict
         if c[0] == "level":
-            return ["cdict %d %d %d %d %d %d" % (d, c[1], c[2], c[3], c[4], c[5])]
+            return ["cdict %d %d %d %d %d %d" % (d, c[1], c[2], c[3], (1 - c[4]) if flip else c[4], c[5])]
         return ["cdict2 %d %d %d %s %d" % (d, c[1], c[2], " ".join(str(x) for x in c[3]), c[4])]
 
-    def lines(self, c, fid, sa=0, da=0, hexout=0, caps=None, inmode=0, cap=0, d=0, override=None, copy_to=-1, fresh=False):
+    def lines(self, c, fid, sa=0, da=0, hexout=0, caps=None, inmode=0, cap=0, d=0, override=None, copy_to=-1, fresh=False,
+              route="set", pieces=None, flip=False):
         """fresh=True: the context has just been created, the call sequence starts with the parameters
-        (no ZSTD_CCtx_reset): a used context gets the same calls after a reset of session and parameters."""
+        (no ZSTD_CCtx_reset): a used context gets the same calls after a reset of session and parameters.
+        route="params": the parameters go through a ZSTD_CCtx_params object (ZSTD_CCtx_setParametersUsingCCtxParams);
+        pieces: another segmentation of the same input calls; flip: the dictionary content by copy <-> by reference."""
         L = []
         o, n = self.src[0], self.src[1]
         head = "F %d %d %d %d %d %d %d " % (c, fid, o, n, sa, da, hexout)
@@ -246,13 +284,16 @@ class Target:
             pp = dict(self.params)
             if override:
                 pp.update(override)
-            for k, v in pp.items():
-                L.append("set %d %d %d" % (c, P[k], v))
+            if route == "params":
+                L.append("setp %d %d %s" % (c, len(pp), " ".join("%d %d" % (P[k], v) for k, v in pp.items())))
+            else:
+                for k, v in pp.items():
+                    L.append("set %d %d %d" % (c, P[k], v))
             if self.dct:
                 if self.dct[0] == "prefix":
                     L.append("prefix %d %d %d" % (c, self.dct[1], self.dct[2]))
                 elif self.dct[0] == "load":
-                    L.append("load %d %d %d %d %d" % (c, self.dct[1], self.dct[2], self.dct[3], self.dct[4]))
+                    L.append("load %d %d %d %d %d" % (c, self.dct[1], self.dct[2], (1 - self.dct[3]) if flip else self.dct[3], self.dct[4]))
             if self.cdict:
                 L.append("refcdict %d %d" % (c, d))
             if self.pledge:
@@ -261,7 +302,8 @@ class Target:
             L.append(head + "c2 %d" % cap)
         elif self.api == "stream":
             cp = caps or [1 << 30]
-            L.append(head + "stream %d %d %s %d %s" % (inmode, len(self.pieces), " ".join("%d %d" % p for p in self.pieces),
+            pcs = pieces or self.pieces
+            L.append(head + "stream %d %d %s %d %s" % (inmode, len(pcs), " ".join("%d %d" % p for p in pcs),
                                                        len(cp), " ".join(str(x) for x in cp)))
         elif self.api == "cctx":
             L.append(head + "cctx %d %d" % (self.level, cap))
@@ -300,8 +342,8 @@ def gen_target(rng, inputs, dicts, api=None, small=False):
             t.dct = ("load", d[0], d[1], rng.randint(0, 1), 0)
         elif r < 0.55:
             d = rng.choice(dicts)
-            t.cdict = ("level", d[0], d[1], rng.choice([1, 3, 5, 7, 13, 19] if d[1] < 30000 else [1, 3, 6]), rng.randint(0, 1), 0)
-            t.params["forceAttachDict"] = rng.choice([0, 1, 2, 3])
+            t.cdict = ("level", d[0], d[1], rng.choice([1, 3, 5, 7, 13, 16, 19, 19] if d[1] < 30000 else [1, 3, 6]), rng.randint(0, 1), 0)
+            t.params["forceAttachDict"] = rng.choice([0, 1, 2, 2, 3])
             if t.params.get("nbWorkers"):
                 t.params.pop("nbWorkers")
         if api == "stream":
@@ -353,7 +395,7 @@ def gen_history(rng, inputs, dicts, t, c, fids, aux_cdict_slot, allow_abort_tail
     kinds = []
     nitems = rng.choice([1, 1, 2, 2, 3, 4])
     menu = ["frame"] * 4 + ["same", "same", "nearwin", "nearwin", "partial", "partial", "tinydst", "pledgelie", "burst", "bigthensmall",
-                             "rowframe", "optframe", "copysrc", "copydst"]
+                             "rowframe", "optframe", "copysrc", "copydst", "wsjunk", "wsjunk"]
     for it in range(nitems):
         k = rng.choice(menu)
         last = it == nitems - 1
@@ -369,19 +411,28 @@ def gen_history(rng, inputs, dicts, t, c, fids, aux_cdict_slot, allow_abort_tail
             L += h.cdict_lines(aux_cdict_slot)
             L += h.lines(c, fids.next(), sa=rng.choice([0, 0, 3, 64]), d=aux_cdict_slot,
                          caps=[rng.choice([1 << 30, 1000, 37])] if api == "stream" else None)
-        elif k == "same":
+        elif k in ("same", "wsjunk"):
             # the very same call sequence (possibly on other data): "tables already clean" / same-size workspace
-            src = t.src if rng.random() < 0.6 else rng.choice([i for i in inputs if i[1] <= 70000])
+            src = t.src if (rng.random() < 0.6 or k == "wsjunk") else rng.choice([i for i in inputs if i[1] <= 70000])
             saved = t.src
             t.src = src
             if t.api == "stream":
                 old = t.pieces
                 t.pieces = [(src[1], 2)]
-                L += t.lines(c, fids.next(), d=aux_cdict_slot + 1)
+                L += t.lines(c, fids.next(), d=0)
                 t.pieces = old
             else:
-                L += t.lines(c, fids.next(), d=aux_cdict_slot + 1)
+                L += t.lines(c, fids.next(), d=0)
             t.src = saved
+            if k == "wsjunk":
+                # then a streaming frame with tiny tables and a large window in the SAME workspace: its buffers (input
+                # bytes, compressed bytes, sequence codes) reach down into the area that held the target's tables;
+                # the next reservation of those tables must notice (tableValidEnd lowered by every top reservation)
+                js = rng.choice([i for i in inputs if 20000 <= i[1] <= 70000])
+                L.append("reset %d 3" % c)
+                for kk, v in (("level", 1), ("strategy", 1), ("hashLog", 6), ("chainLog", 6), ("windowLog", rng.choice([16, 17, 18, 19, 20]))):
+                    L.append("set %d %d %d" % (c, P[kk], v))
+                L.append("F %d %d %d %d 0 0 0 stream 0 1 %d 2 1 %d" % (c, fids.next(), js[0], js[1], js[1], rng.choice([1 << 30, 5000])))
         elif k == "nearwin":
             # leave indices just below / above the window of the target
             wl = t.cparams[0] if t.cparams else t.params.get("windowLog", rng.choice([10, 12, 14, 16, 17]))
@@ -525,7 +576,7 @@ def build_group(rng, gid, t, inputs, dicts, want_hex=False, trace=False):
         return [rng.choice([64, 100, 1000, 4200, 20000, 70000]) for _ in range(rng.choice([1, 2, 3]))]
 
     def add(label, cls, ctxkind, hist=False, sa=None, da=None, caps=None, inmode=0, cap=0, contig=False, copy=False, hexout=0,
-            force_fresh=False):
+            force_fresh=False, route="set", pieces=None, flip=False, d=0):
         c = new_ctx(ctxkind)
         kinds = []
         if sa is None:
@@ -552,9 +603,19 @@ def build_group(rng, gid, t, inputs, dicts, want_hex=False, trace=False):
             kinds.append("copyCCtx")
         fid = fids.next()
         is_fresh = not hist and not contig and not copy
-        L.extend(t.lines(c, fid, sa=sa, da=da, hexout=hexout, caps=caps, inmode=inmode, cap=cap, d=0, copy_to=copy_to,
-                         fresh=is_fresh and (force_fresh or rng.random() < 0.7)))
-        g.variants.append((fid, label, cls, dict(ctx=ctxkind, sa=sa, da=da, caps=caps, inmode=inmode, cap=cap, hist=kinds)))
+        L.extend(t.lines(c, fid, sa=sa, da=da, hexout=hexout, caps=caps, inmode=inmode, cap=cap, d=d, copy_to=copy_to,
+                         fresh=is_fresh and (force_fresh or rng.random() < 0.7), route=route, pieces=pieces, flip=flip))
+        info = dict(ctx=ctxkind, sa=sa, da=da, caps=caps, inmode=inmode, cap=cap, hist=kinds)
+        if route != "set":
+            info["route"] = route
+            kinds.append("route-" + route)
+        if pieces is not None:
+            info["pieces"] = pieces
+            kinds.append("reseg")
+        if flip:
+            info["flip"] = True
+            kinds.append("dict-copy-vs-ref")
+        g.variants.append((fid, label, cls, info))
         g.kinds.update(kinds)
         g.kinds.add(ctxkind)
         return c
@@ -574,6 +635,21 @@ def build_group(rng, gid, t, inputs, dicts, want_hex=False, trace=False):
             cap=rng.choice([0, 0, cbound(n) + 123]) if t.api in ("c2", "cctx") else 0)
     if n > 0 and n <= 200000 and (rng.random() < 0.6 or t.src[2] == "headtail"):
         add("contig", "eq", rng.choice(["heap", "heapz"]), contig=True, caps=small_caps() if is_stream else None)
+    if t.sticky() and rng.random() < 0.6:
+        # the same parameters through ZSTD_CCtx_params / ZSTD_CCtx_setParametersUsingCCtxParams
+        add("params-route", "eq", rng.choice(["heap", "heapz"]), hist=rng.random() < 0.5, route="params",
+            caps=small_caps() if is_stream else None)
+    if t.sticky() and ((t.dct and t.dct[0] == "load") or (t.cdict and t.cdict[0] == "level")) or (
+            t.api in ("ucdict", "blcdict") and t.cdict and t.cdict[0] == "level"):
+        # the dictionary content by copy <-> by reference (CDict: a second CDict in slot 1)
+        if t.cdict:
+            L.extend(t.cdict_lines(1, flip=True))
+        add("dict-flip", "eq", "heap", hist=rng.random() < 0.5, flip=True, d=1 if t.cdict else 0,
+            caps=small_caps() if is_stream else None)
+    if is_stream and any(dd == 0 for _, dd in t.pieces):
+        for i in range(2):
+            add("reseg%d" % i, "eq", rng.choice(["heap", "heapz"]), hist=(i == 1), pieces=reseg_pieces(rng, t.pieces),
+                caps=[rng.randint(1, small_hi)] if i == 0 else small_caps(), inmode=rng.randint(0, 1))
     if is_stream:
         add("caps-a", "eq", "heap", caps=small_caps(), inmode=1)
         add("caps-big1", "big", "heapz", caps=big_caps(), sa=0, da=0)
@@ -585,10 +661,10 @@ def build_group(rng, gid, t, inputs, dicts, want_hex=False, trace=False):
 def build_mt_group(rng, gid, bigs, inputs, dicts):
     src = rng.choice(bigs)
     n = src[1]
-    p = {"level": rng.choice([1, 1, 2, 3, 3, 4, 5, 6]), "jobSize": rng.choice([1, 1, 600000, 1 << 20])}
+    p = {"level": rng.choice([1, 1, 2, 3, 3, 4, 5, 6]), "jobSize": rng.choice([1, 1, 600000, 1 << 20, 0, 0])}
     r = rng.random()
-    if r < 0.3:
-        p["windowLog"] = rng.choice([12, 16, 18, 20])
+    if r < 0.3 or p["jobSize"] == 0:
+        p["windowLog"] = rng.choice([12, 16, 18, 18] if p["jobSize"] == 0 else [12, 16, 18, 20])   # default job = 4 windows, >= 1 MiB
     if rng.random() < 0.5:
         p["overlapLog"] = rng.randint(1, 9)
     if rng.random() < 0.25:
@@ -654,11 +730,15 @@ def build_mt_group(rng, gid, bigs, inputs, dicts):
         if api == "stream":
             caps = rng.choice([[1 << 30], [rng.randint(1, 5000)], [rng.randint(1, 300000) for _ in range(3)], [1, 100000]])
         fid = fids.next()
+        pcs = None
+        if api == "stream" and label != "ref" and any(dd == 0 for _, dd in t.pieces) and rng.random() < 0.4:
+            pcs = reseg_pieces(rng, t.pieces)
+            kinds.append("reseg")
         L.extend(t.lines(c, fid, sa=rng.choice([0, rng.randint(1, 63)]), da=rng.choice([0, rng.randint(1, 63)]),
-                         caps=caps, inmode=0, d=0, override={"nbWorkers": w}, fresh=not hist and rng.random() < 0.5))
+                         caps=caps, inmode=0, d=0, override={"nbWorkers": w}, fresh=not hist and rng.random() < 0.5, pieces=pcs))
         L.append("jitter 0")
         L.append("mtfail 0")
-        g.variants.append((fid, label, "eq", dict(ctx=kind, w=w, jitter=jit, mtfail=fail, caps=caps, hist=kinds)))
+        g.variants.append((fid, label, "eq", dict(ctx=kind, w=w, jitter=jit, mtfail=fail, caps=caps, hist=kinds, pieces=pcs)))
         g.kinds.update(kinds)
     return g
 
@@ -666,12 +746,16 @@ def build_mt_group(rng, gid, bigs, inputs, dicts):
 # --------------------------------------------------------------------------------------------
 # running
 
+K_SEEN = []     # constants lines of the harness ("K ..."), one per process
+
+
 def parse_output(out):
     """-> (frames {fid: ...}, dumps [...], errs [...]); tolerant of the truncated last line of a crashed process"""
     frames = {}
     dumps = []
     errs = []
     cur = []
+    curp = []
     last_fid = None
     for l in out.split("\n"):
         if not l:
@@ -681,11 +765,13 @@ def parse_output(out):
             if t[0] == "F":
                 fid = int(t[1])
                 if t[2] == "E":
-                    frames[fid] = dict(err=" ".join(t[3:-1]), nerr=int(t[-1]), jobs=cur)
+                    frames[fid] = dict(err=" ".join(t[3:-1]), nerr=int(t[-1]), jobs=cur, pobs=curp)
                 else:
                     frames[fid] = dict(err=None, size=int(t[3]), hash=t[4], rt=int(t[5]), nerr=int(t[6]), sc=int(t[7]),
-                                       hex=t[8] if len(t) > 8 else None, jobs=cur)
+                                       nblk=int(t[8]), lastempty=int(t[9]),
+                                       hex=t[10] if len(t) > 10 else None, jobs=cur, pobs=curp)
                 cur = []
+                curp = []
                 last_fid = fid
             elif t[0] == "D":
                 d = dict(ctx=int(t[1]), why=t[2])
@@ -700,8 +786,13 @@ def parse_output(out):
                     last_fid = None
             elif t[0] == "J":
                 cur.append(tuple(int(x) for x in t[1:6]))
+            elif t[0] == "P":
+                curp.append(tuple(int(x) for x in t[1:8]))
+            elif t[0] == "K":
+                K_SEEN.append([int(x) for x in t[1:]])
             elif t[0] == "A":
                 cur = []        # jobs of an abandoned frame
+                curp = []
             elif t[0] == "E":
                 errs.append(l)
         except (ValueError, IndexError, KeyError):
@@ -787,7 +878,7 @@ def same_frame(f, r):
 
 
 def strip(f):
-    return {k: v for k, v in f.items() if k not in ("hex", "jobs", "dumps", "dump")}
+    return {k: v for k, v in f.items() if k not in ("hex", "jobs", "dumps", "dump", "pobs")}
 
 
 # --------------------------------------------------------------------------------------------
@@ -823,7 +914,38 @@ class Model:
 ALIGN = 64
 
 
-def lockstep_cases(g, dumps, frames):
+def dict_modes(ctx, model, per_group, report):
+    """attach / copy / load of a CDict when a frame starts: Det/DictMode.dict_mode on the CDict, the applied parameters
+    and the pledged size read from the real structs, against what the context shows (dictMatchState set <=> attach;
+    copy => the applied table parameters are the CDict's).  Returns {id(dump): mode}."""
+    cases, idx = [], []
+    for g, dumps, frames in per_group:
+        for d in dumps:
+            if d["why"] in ("first0", "begin") and d["init"] and d.get("nbw", 0) == 0 and d.get("cd", 0) and "cdsz" in d:
+                cases.append((12, [d["cdsz"], d["cdlvl"], d["cdstrat"], d["cddds"], d["pledged"], d["adp"], d["fw"]]))
+                idx.append((g, d))
+    modes = {}
+    if K_SEEN:
+        exp = model.run([(11, [0])])[0]
+        ctx.cov["traces_validated_against_impl"] += 1
+        ctx.count(("dictmode-consts", exp == K_SEEN[0]), nontrivial=True)
+        if exp != K_SEEN[0]:
+            report("lockstep", per_group[0][0] if per_group else None,
+                   dict(model="DictMode constants (srcsize cutoff, multiplier, attachDictSizeCutoffs, attach preferences)", predicted=exp, observed=K_SEEN[0]))
+    for (g, d), r in zip(idx, model.run(cases)):
+        m = r[0]
+        modes[id(d)] = m
+        obs_attach = d["dms"] == 1
+        ok = (m == 1) == obs_attach and (m != 2 or (d["cdsame"] == 1 and d["lde"] != 0))
+        ctx.cov["traces_validated_against_impl"] += 1
+        ctx.count(("dictmode", m, d["adp"], d["pledged"] < 0, d["cddds"], ok), nontrivial=True)
+        if not ok:
+            report("lockstep", g, dict(model="DictMode.dict_mode (0 load, 1 attach, 2 copy)", predicted=m,
+                                       observed=dict(dictMatchState=d["dms"], tables_like_cdict=d["cdsame"], loadedDictEnd=d["lde"]), dump=d))
+    return modes
+
+
+def lockstep_cases(g, dumps, frames, modes=None):
     """(cases, checks): model cases for this group and how to compare their answers.
     A 'first' (streaming call with no input yet) or 'begin' (ZSTD_compressBegin_advanced) dump shows the context right
     after ZSTD_resetCCtx_internal (+ dictionary loading); the dump before it on the same context is the history."""
@@ -844,8 +966,10 @@ def lockstep_cases(g, dumps, frames):
         # salt and the workspace are predicted then
         resized = (not d["static"]) and d["osd"] == 0
         pinit = prev["init"]
+        # tables (and, for a row-based CDict, tags and salt) copied from a CDict after the reset
+        cdcopy = 1 if (modes or {}).get(id(d)) == 2 else 0
         a1 = [pinit, prev.get("idx", 0), prev.get("ll", 0), prev.get("dl", 0), prev.get("ntu", 0), prev.get("lde", 0),
-              prev.get("dms", 0), prev.get("lls", 0), prev.get("salt", 0), prev.get("ent", 0), 0, 1 if resized else 0, d["row"]]
+              prev.get("dms", 0), prev.get("lls", 0), prev.get("salt", 0), prev.get("ent", 0), 0, 1 if resized else 0, d["row"], cdcopy]
         cases.append((1, a1))
         checks.append(("reset", d, prev, nodict))
         if nodict and d.get("reach", 0) != 0:
@@ -872,8 +996,9 @@ def lockstep_cases(g, dumps, frames):
 def run_lockstep(ctx, model, per_group, report):
     """per_group: list of (g, dumps, frames)"""
     allcases, index = [], []
+    modes = dict_modes(ctx, model, per_group, report)
     for g, dumps, frames in per_group:
-        cases, checks, direct = lockstep_cases(g, dumps, frames)
+        cases, checks, direct = lockstep_cases(g, dumps, frames, modes)
         for kind, d in direct:
             report("observer", g, dict(kind=kind, dump=d,
                                        what="table entry >= index of nextSrc (invariant I)" if kind == "tb" else
@@ -928,6 +1053,86 @@ def run_lockstep(ctx, model, per_group, report):
                 report("lockstep", g, dict(model="CwkspClean.reset_ops", predicted=p, observed=obs, before=prev, after=d, args=c[1]))
             else:
                 n_ok += 1
+    return n_ok
+
+
+def extra_lockstep(ctx, model, per_group, report):
+    """lock-step of the models added in the continuation round:
+       Det/BlockState (ZSTD_reset_compressedBlockState, LDM reset) right after ZSTD_resetCCtx_internal without dictionary,
+       Det/StreamPartition (chunks handed to the block compressor) after every input piece of every streaming frame."""
+    cases, idx = [], []
+    for g, dumps, frames in per_group:
+        last = {}
+        for d in dumps:
+            c = d["ctx"]
+            prev = last.get(c)
+            last[c] = d
+            if d["why"] not in ("first0", "begin") or not d["init"] or d.get("nbw", 0) != 0 or prev is None or "rep0" not in d:
+                continue
+            nodict = d["lde"] == 0 and d["dms"] == 0 and d["idx"] == d["dl"] and d["idx"] == d["ll"] and d["stage"] == 1
+            if not nodict:
+                continue
+            cases.append((9, [prev.get(k, 0) for k in ("rep0", "rep1", "rep2", "hr", "ofr", "mlr", "llr")]))
+            idx.append(("bs", g, d, prev))
+            if d.get("ldm") and "ldmnz" in d:
+                cases.append((10, [prev.get(k, 0) for k in ("ldmidx", "ldmll", "ldmdl", "ldmlde")]))
+                idx.append(("ldm", g, d, prev))
+        if g.t.api != "stream":
+            continue
+        for fid, label, cls, info in g.variants:
+            f = frames.get(fid)
+            if not f or f["err"] is not None or not f.get("pobs") or not f.get("dump"):
+                continue
+            dd = f["dump"]
+            if dd.get("nbw", 0) != 0 or "bs" not in dd:
+                continue
+            pcs = info.get("pieces") or g.t.pieces
+            if f["sc"] == 1 and len(pcs) != 1:
+                continue        # the shortcut ran somewhere inside a longer call sequence: classified by observation only
+            pledged = g.t.src[1] if g.t.pledge else (pcs[0][0] if pcs[0][1] == 2 else None)
+            bs = dd["bs"]
+            t0 = bs + (1 if pledged == bs else 0)
+            cases.append((8, [bs, dd["ibs"], t0, 1 if f["sc"] == 1 else 0] + [x for pc in pcs for x in pc]))
+            idx.append(("sp", g, (label, info, f, pcs), None))
+    res = model.run(cases)
+    n_ok = 0
+    for (kind, g, a, b), r in zip(idx, res):
+        ctx.cov["traces_validated_against_impl"] += 1
+        if kind == "bs":
+            obs = [a[k] for k in ("rep0", "rep1", "rep2", "hr", "ofr", "mlr", "llr")]
+            ok = obs == r
+            ctx.count(("lockstep-blockstate", tuple(b.get(k, 0) for k in ("hr", "ofr", "mlr", "llr")), ok), nontrivial=bool(b["init"]))
+            if not ok:
+                report("lockstep", g, dict(model="BlockState.reset_cbstate (rep0 rep1 rep2 huf of ml ll)", predicted=r, observed=obs, before=b, after=a))
+        elif kind == "ldm":
+            obs = [a["ldmidx"], a["ldmll"], a["ldmdl"], a["ldmlde"], a["ldmnz"]]
+            ok = obs == r
+            ctx.count(("lockstep-ldm", b.get("ldmnz", 0) > 0, ok), nontrivial=True)
+            if not ok:
+                report("lockstep", g, dict(model="BlockState.reset_ldm (end low dict loadedDictEnd nonzero-table-bytes)", predicted=r, observed=obs, before=b, after=a))
+        else:
+            label, info, f, pcs = a
+            bad = None
+            if r == [-1] or len(r) != 2 * len(pcs) + 3:
+                bad = dict(what="the model does not complete this call sequence", model_out=r[:20])
+            else:
+                for k, po in enumerate(f["pobs"][:len(pcs)]):
+                    exp = (r[2 * k], r[2 * k + 1])
+                    got = (po[2], po[3] - po[4])
+                    if exp != got:
+                        bad = dict(piece=k, predicted=dict(consumed=exp[0], buffered=exp[1]), observed=dict(consumed=got[0], buffered=got[1]))
+                        break
+                nch, lastsz, lastflag = r[-3:]
+                if bad is None and (lastflag != 1 or f["lastempty"] != (1 if lastsz == 0 else 0) or f["nblk"] < nch):
+                    bad = dict(predicted=dict(chunks=nch, last_chunk=lastsz, last=lastflag), observed=dict(blocks=f["nblk"], last_block_empty=f["lastempty"]))
+            ctx.count(("lockstep-stream", min(len(pcs), 6), f["sc"], f["lastempty"], any(d == 1 for _, d in pcs), bad is None), nontrivial=len(pcs) > 1)
+            if bad:
+                report("lockstep", g, dict(model="StreamPartition.s_run (chunks handed to the block compressor)", label=label, info=info,
+                                           pieces=pcs[:12], detail=bad))
+        if kind != "sp" and ok:
+            n_ok += 1
+        elif kind == "sp" and not bad:
+            n_ok += 1
     return n_ok
 
 
@@ -1174,8 +1379,10 @@ def run(ctx):
     t_start = time.time()
     quick = ctx.quick
     r = ctx.prove()
+    log("proof step done at %.1fs" % (time.time() - t_start))
     exe = core.build_harness("c07_det", ["c07_det.c"], extra_flags=["-w"])
     model = Model()
+    log("harness + extracted model ready at %.1fs" % (time.time() - t_start))
     rng = random.Random(ctx.seed)
     blob, inputs, dicts, bigs = build_pool(rng, quick)
     # exact multiple of the minimal job size for the MT finding
@@ -1193,7 +1400,7 @@ def run(ctx):
             log("replay recorded with seed=%s tier=%s: re-run with VERIF_SEED=%s --tier %s for the same case" % (
                 ro.get("seed"), ro.get("tier"), ro.get("seed"), ro.get("tier")))
 
-    n_groups = 110 if quick else 900
+    n_groups = 100 if quick else 900
     n_mt = 8 if quick else 60
     groups = []
     for gid in range(n_groups):
@@ -1267,22 +1474,27 @@ def run(ctx):
                             result="all outputs byte-identical to the fresh-context output" if not any(v[1] is g for v in viol) else "see violations"))
     try:
         n_ok = run_lockstep(ctx, model, per_group, report)
-        log("lock-step: %d model predictions matched" % n_ok)
+        n_ok2 = extra_lockstep(ctx, model, per_group, report)
+        log("lock-step: %d + %d model predictions matched" % (n_ok, n_ok2))
     except Exception as e:
         viol.append(("crash", None, dict(what="lock-step failed to run", error=repr(e)), None))
 
     def report_simple(kind, detail):
         viol.append((kind, None, detail, None))
+    log("lock-step done at %.1fs" % (time.time() - t_start))
     if only is None:
         try:
             opt_and_hash_tie(ctx, model, rng, report_simple, ctx.scratch, inputs, blob)
         except Exception as e:
             viol.append(("crash", None, dict(what="opt/hash tie failed to run", error=repr(e)), None))
+        log("opt / hash tie done at %.1fs" % (time.time() - t_start))
         # a sample of the frames through the Coq reference decoder R
         try:
             cd = codec.Codec(ctx)
             cases = []
-            for g, f in hexes[:6 if quick else 30]:
+            if quick:       # R costs ~0.5 s per 100 kB alone, several times that on a busy machine
+                hexes = sorted([h for h in hexes if h[0].t.src[1] <= 40000], key=lambda h: h[0].t.src[1])[-4:]
+            for g, f in hexes[:4 if quick else 30]:
                 dct = None
                 if g.t.dct:
                     dct = bytes(blob.b[g.t.dct[1]:g.t.dct[1] + g.t.dct[2]])
@@ -1333,7 +1545,9 @@ def run(ctx):
     ctx.cov["rule"] = (
         "groups = one target call sequence (api x parameters x dictionary x input x pieces, seeded) executed under 5-10 execution "
         "contexts (fresh zeroed / garbage heap / static memory, histories of other frames, aborted frames + resets, copyCCtx, "
-        "130-frame bursts, src/dst offsets 0..63 and contiguous placement, output capacities, nbWorkers 1/2/4 x lock jitter x refused "
+        "130-frame bursts, a frame whose buffers overwrite the area of the target's tables, src/dst offsets 0..63 and contiguous "
+        "placement, output capacities, other cuts of the e_continue input, parameters through ZSTD_CCtx_params, dictionary by copy / "
+        "by reference, nbWorkers 1/2/4 x lock jitter x refused "
         "posts); one evaluation = one byte-compare of a variant against the fresh reference, or one model prediction compared with "
         "the real struct / real function. A case is non-trivial when it produced a frame (no error) from more than 64 input bytes, "
         "or when the model step started from a used context; distinct = distinct (api, strategy, bias, dictionary, memory kind, "
